@@ -16,7 +16,7 @@ Driver for C09. One input line per call of the real `Bundle.Fragment` (blank sep
   pl       payload block  <replicate>:<priced>:<actual0>
   blocks   "-" or comma list  <num>:<type>:<replicate>:<priced>:<actual>   (bundle order, payload excluded)
   payload  hex
-  res      err:mnf | err:overhead | err:empty | err:invalid | err:other | panic | empty | self |
+  res      err:mnf | err:overhead | err:empty | err:invalid | err:other | panic | hang | empty | self |
            ';' list of fragments  <off>:<total>:<plen>:<size>:<flags>:<ident>:<blocks>:<sliceok>:<payloadhex>
            ident = five 0/1 digits (source, timestamp, destination, report-to, lifetime equal to the input's)
            blocks = "-" or '.' list  <num>/<type>/<len>/<same>
@@ -92,17 +92,13 @@ def cfg : Cfg := Cfg.fixed
 def numbersCanonical (bs : List Blk) : Bool :=
   bs.map (·.num) == (List.range bs.length).map (· + 2)
 
-def judge (x : In) (first others res reasm : String) : String :=
+def judgeSpec (x : In) (res reasm : String) : String :=
   let l := x.payload.length
   let rf := if x.isFragment then "-refragment" else ""
   let ep := if l == 0 then "-empty-payload" else ""
   let ctx := s!"mtu={x.mtu} size={x.size} len={l} res={res.take 120}"
-  -- hypotheses of `size_bound`, checked on the real numbers
-  if !(x.blocks.all (fun b => b.actual ≤ b.priced) && x.pl.actual0 ≤ x.pl.priced && 1 ≤ x.pl.actual0) then
-    s!"diff pricing-hypothesis block longer than priced {ctx}"
-  else if first != "e" && (first != toString (extLen x).1 || others != toString (extLen x).2) then
-    s!"diff extLen model={(extLen x).1},{(extLen x).2} impl={first},{others}"
-  else if res == "panic" then s!"specfail panic-in-fragment{rf} {ctx}"
+  if res == "panic" then s!"specfail panic-in-fragment{rf} {ctx}"
+  else if res == "hang" then s!"specfail fragment-does-not-terminate{rf} {ctx}"
   else if x.mustNotFragment then
     if res.startsWith "err:" then
       (if fragment cfg x == .error .mustNotFragment && res == "err:mnf" then "ok" else s!"diff mnf impl={res}")
@@ -150,6 +146,19 @@ def judge (x : In) (first others res reasm : String) : String :=
             else s!"diff frags model={fs.map (showFrag x)} impl={gs.map showGo}"
           | .self => s!"diff frags model=self impl={gs.map showGo}"
           | .error e => s!"diff frags model={showErr e} impl={gs.map showGo}"
+
+def judge (x : In) (first others res reasm : String) : String :=
+  let ctx := s!"mtu={x.mtu} size={x.size} len={x.payload.length} res={res.take 120}"
+  -- A Spec failure on the implementation's output always takes precedence; only if the Spec holds are
+  -- the model's assumptions (hypotheses of `size_bound`, the estimate) and its outputs compared.
+  let pre : Option String :=
+    if !(x.blocks.all (fun b => b.actual ≤ b.priced) && x.pl.actual0 ≤ x.pl.priced && 1 ≤ x.pl.actual0) then
+      some s!"diff pricing-hypothesis block longer than priced {ctx}"
+    else if first != "e" && (first != toString (extLen x).1 || others != toString (extLen x).2) then
+      some s!"diff extLen model={(extLen x).1},{(extLen x).2} impl={first},{others}"
+    else none
+  let v := judgeSpec x res reasm
+  if v.startsWith "specfail" then v else pre.getD v
 
 def handle (line : String) : String :=
   match fields line with
